@@ -1247,8 +1247,8 @@ impl GRLParser {
             let args: Vec<String> = if args_str.trim().is_empty() {
                 Vec::new()
             } else {
-                args_str
-                    .split(',')
+                Self::split_outside_literals(args_str, ',')
+                    .into_iter()
                     .map(|arg| arg.trim().to_string())
                     .collect()
             };
@@ -1278,8 +1278,8 @@ impl GRLParser {
             let args: Vec<String> = if args_str.trim().is_empty() {
                 Vec::new()
             } else {
-                args_str
-                    .split(',')
+                Self::split_outside_literals(args_str, ',')
+                    .into_iter()
                     .map(|arg| arg.trim().to_string())
                     .collect()
             };
@@ -1661,7 +1661,7 @@ impl GRLParser {
                 }
                 "schedulerule" | "schedule_rule" => {
                     // Parse delay and target rule: ScheduleRule(5000, "next-rule")
-                    let parts: Vec<&str> = args_str.split(',').collect();
+                    let parts = Self::split_outside_literals(args_str, ',');
                     if parts.len() != 2 {
                         return Err(RuleEngineError::ParseError {
                             message: "ScheduleRule requires delay_ms and rule_name".to_string(),
@@ -1760,7 +1760,7 @@ impl GRLParser {
 
         // Handle expressions like: $TestCar.Speed + $TestCar.SpeedIncrement
         let mut args = Vec::new();
-        let parts: Vec<&str> = args_str.split(',').collect();
+        let parts = Self::split_outside_literals(args_str, ',');
 
         for part in parts {
             let trimmed = part.trim();
@@ -1789,8 +1789,9 @@ impl GRLParser {
             return Ok(params);
         }
 
-        // Parse positional parameters as numbered args
-        let parts: Vec<&str> = args_str.split(',').collect();
+        // Parse positional parameters as numbered args; a `,` inside a string
+        // or array literal does not separate arguments
+        let parts = Self::split_outside_literals(args_str, ',');
         for (i, part) in parts.iter().enumerate() {
             let trimmed = part.trim();
             let value = self.parse_value(trimmed)?;
